@@ -272,6 +272,8 @@ def _opq_deps_homogeneous(e: Expr, decl: DegDecl):
     d = POLY
     for x in e[2]:
         if isinstance(x, Expr):
+            if not sym.has_coord(x):
+                continue  # positions / sizes / configuration: scale-free by construction
             d = _dj(d, degree(x, decl), e)
             if is_top(d):
                 return d
@@ -291,6 +293,7 @@ OPAQUE_DEG: Dict[str, Callable] = {
     "index": _opq_deps_homogeneous, "argsort": _opq_deps_homogeneous, "argmin": _opq_deps_homogeneous,
     "argmax": _opq_deps_homogeneous, "bisect": _opq_deps_homogeneous, "count": _opq_deps_homogeneous,
     "config": _opq_config, "loopvar": _opq_config, "len": _opq_deps_homogeneous,
+    "carry": lambda e, decl: degree(e[2][0], decl),
 }
 
 
@@ -479,6 +482,7 @@ def _opq_deps_invariant(e: Expr, decl: ShiftDecl):
 OPAQUE_SHIFT: Dict[str, Callable] = {k: _opq_deps_invariant for k in
                                      ("lsa_rows", "lsa_cols", "hk_matching", "hk_len", "hk_partner", "index", "argsort",
                                       "argmin", "argmax", "bisect", "count", "config", "loopvar", "len")}
+OPAQUE_SHIFT["carry"] = lambda e, decl: weight(e[2][0], decl)
 
 
 # ----------------------------------------------------------------------------- SIGN
